@@ -466,6 +466,14 @@ class ExtV(Val):
 
 
 @dataclass(frozen=True)
+class SuperV(Val):
+    """super(): attribute lookup continues in the MRO of the receiver's class after `after`."""
+
+    after: Any = None  # ClassInfo in whose body the calling method is defined
+    self_val: Optional[Val] = None  # the instance (or the class, in classmethods / __init_subclass__)
+
+
+@dataclass(frozen=True)
 class Opaque(Val):
     """An object of a type unrelated to everything the code tests for (shape runs)."""
 
@@ -494,8 +502,6 @@ def subst_val(v: Val, env: Dict[str, Any]) -> Val:
         if v.sym is None and not v.prov:
             return v
         s2 = subst_sym(v.sym, env)
-        if s2 is not v.sym and opq_dead(s2):
-            s2 = None  # a value number tied to a loop iteration does not survive that iteration
         return replace(v, sym=s2, prov=_subst_prov(v.prov, env))
     if isinstance(v, Bool):
         if v.sym is None and not v.prov:
@@ -544,7 +550,7 @@ def subst_sym(s, env):
     if k in ("const", "param", "opaque"):
         return s
     if k == "opq":
-        return ("opq", s[1], s[2], tuple(_subst_tokname(t, env) for t in s[3]))
+        return ("opq", s[1], s[2], tuple(_subst_tokname(t, env) for t in s[3])) + tuple(s[4:])
     if k == "lenterm":
         return ("lenterm", _subst_lenterm(s[1], env))
     return (k,) + tuple(subst_sym(a, env) if isinstance(a, tuple) else a for a in s[1:])
@@ -567,6 +573,19 @@ def opq_dead(s, depth: int = 0) -> bool:
     if s[0] in ("in", "rd", "elem", "const", "param", "lenterm", "len", "idx"):
         return False
     return any(opq_dead(a, depth + 1) for a in s[1:] if isinstance(a, tuple))
+
+
+def sym_has_star(s, depth: int = 0) -> bool:
+    """The term mentions an unknown position ('*'): two occurrences need not denote the same value."""
+    if s is None or not isinstance(s, tuple) or depth > 80:
+        return False
+    if s == STAR:
+        return True
+    if s and s[0] == "opq":
+        return "*" in s[3]
+    if s and s[0] == "const":
+        return False
+    return any(sym_has_star(a, depth + 1) for a in s[1:] if isinstance(a, tuple))
 
 
 def has_opq(s, depth: int = 0) -> bool:
@@ -705,7 +724,14 @@ def _join_wt(a, b):
         return None
     wa = a.wt if a.wt is not None else (_WT_ZERO if "MU" not in a.prov else None)
     wb = b.wt if b.wt is not None else (_WT_ZERO if "MU" not in b.prov else None)
-    return wa if wa == wb else None
+    if wa == wb:
+        return wa
+    # the constant 0 is 0 under every multiplicative response: it joins with (0, M) for any M
+    if wa == _WT_ZERO and a.const == 0 and wb is not None and not wb[0]:
+        return wb
+    if wb == _WT_ZERO and b.const == 0 and wa is not None and not wa[0]:
+        return wa
+    return None
 
 
 def join_val(a: Val, b: Val) -> Val:
